@@ -549,7 +549,7 @@ class C16(Property):
                   '/bv/"q%d", line 5, in z.py']
     DISK_FILES = ['disk%d.py', 'd \u00e9 %d/mod.py', 'sub%d/a"b, line 5, in z.py']
     LIVE_KINDS = ['call', 'call', 'lambda', 'method', 'gen', 'exec', 'eval', 'rec', 'multi', 'comp', 'deco', 'prop',
-                  'reraise', 'reraise', 'async']
+                  'reraise', 'reraise', 'async', 'rec', 'rec2', 'recalt']
     # how an intermediate function hands an exception it caught on to its caller
     REHOW = ['as_e', 'bare', 'wtb', 'trim', 'after', 'nested', 'loop', 'throw', 'faketb', 'finally']
     BUILTIN_EXC = ['ValueError', 'KeyError', 'TypeError', 'RuntimeError', 'OSError', 'ZeroDivisionError',
@@ -587,7 +587,7 @@ class C16(Property):
         rng = self.rng
         kind = rng.choice(self.LIVE_KINDS)
         ln = {'m': rng.randrange(nm), 'kind': kind}
-        if kind == 'rec':
+        if kind in ('rec', 'rec2', 'recalt'):
             ln['n'] = rng.choice([0, 1, 2, 3, 4, 5, 9]) if not big else rng.choice([2, 3, 4, 40])
         if kind in ('call', 'lambda', 'exec'):
             ln['pad'] = rng.choice(['    ', '  ', '\t', '        '])
@@ -718,6 +718,18 @@ class C16(Property):
             yield case([pin], [call], exc={'kind': 'modattr', 'm': 0, 'args': ['x'], 'mod': mod})
         for args in self.LIVE_ARGS:
             yield case([pin], [], exc={'kind': 'strsub', 'm': 0, 'args': args})
+        # runs of identical entries (recursion): around the interpreter's cut-off of 3, 'time' / 'times', two runs,
+        # a run cut by the limit, neighbours that share only two of file / line / name
+        for n in (2, 3, 4, 5, 8):
+            for kind in ('rec', 'rec2', 'recalt'):
+                rec = {'m': 0, 'kind': kind, 'n': n}
+                yield case([pin], [rec])
+                yield case([pin], [call, rec, lam], order='s')
+                for limit in (2, 4, 5):
+                    yield case([pin], [rec], limit=limit)
+            yield case([pin], [{'m': 0, 'kind': 'rec', 'n': n}, call, {'m': 0, 'kind': 'rec', 'n': 4}])
+            yield case([pin], [{'m': 0, 'kind': 'rec', 'n': n}, {'m': 0, 'kind': 'rec', 'n': n}], tblimit=n + 3)
+            yield case([pin], [{'m': 0, 'kind': 'rec', 'n': n}], skip=2)
         # sessions: several captures in one process; exception classes that share a module and a bare name (classes
         # nested in classes / functions), share a qualified name across modules, are redefined between captures, or
         # are the same object with its naming attributes reassigned between captures
@@ -853,6 +865,14 @@ class C16(Property):
             elif kind == 'rec':
                 L += ['def fn%d(n=%d):' % (i, ln.get('n', 1)), '    if n:', '        return fn%d(n - 1)' % i,
                       '    return %s()' % nxt, 'R[%d] = fn%d' % (i, i)]
+            elif kind == 'rec2':
+                # recursion through a def and a lambda on ONE line: consecutive entries share file and line, not the name
+                L += ['def fn%d(n=%d): return (lambda: fn%d(n - 1) if n else %s())()' % (i, ln.get('n', 1), i, nxt),
+                      'R[%d] = fn%d' % (i, i)]
+            elif kind == 'recalt':
+                # recursion from two lines in turn: consecutive entries share file and name, not the line
+                L += ['def fn%d(n=%d):' % (i, ln.get('n', 1)), '    if n % 2:', '        return fn%d(n - 1)' % i, '    if n:',
+                      '        return fn%d(n - 1)' % i, '    return %s()' % nxt, 'R[%d] = fn%d' % (i, i)]
             elif kind == 'multi':
                 L += ['def fn%d():' % i, '    return (1 +', '            %s(' % nxt, '            ))', 'R[%d] = fn%d' % (i, i)]
             elif kind == 'comp':
@@ -1656,24 +1676,31 @@ class C16(Property):
                 and obs.get('print') is None and obs.get('print_exc') == 'TypeError')
 
     def finding_recursion_collapse(self, case, failure):
-        """live kind: the interpreter collapses more than 3 identical consecutive entries into
-        '[Previous line repeated N more times]'; boltons prints (and cannot parse) no such line"""
-        if getattr(failure, 'model_agrees', None) is False or case['k'] != 'l' or failure.tag not in ('format', 'parse_std'):
+        """live kind, formatted output: the interpreter collapses more than 3 identical consecutive entries into
+        '[Previous line repeated N more times]'; before fix 7fb4f9f boltons printed every entry. Matched only while
+        the implementation prints exactly the uncollapsed layout everywhere (the model follows the fixed code, so
+        agreement with the model is not asked for here)"""
+        if case['k'] != 'l' or failure.tag != 'format':
             return False
         obs = self._live_obs(case)
         if 'std' not in obs or not any('  [Previous line repeated ' in (obs.get(k) or '') for k in ('std', 'std_tb', 'std_lim')):
             return False
-        if failure.tag == 'format':
-            # exactly the uncollapsed layout everywhere, nothing else differs
-            plain = obs['std_plain']
-            tb_plain = obs.get('std_tb_plain', obs['std_tb'])
-            return (obs['ei'] + '\n' == plain and obs['print'] == plain
-                    and obs.get('cur', obs['ei']) + '\n' == plain and obs.get('cei', obs['ei']) + '\n' == plain
-                    and (obs.get('std_lim_plain') is None or obs.get('print_lim') == obs['std_lim_plain'])
-                    and obs['tbi'] == tb_plain and obs.get('cur_tbi', obs['tbi']) == tb_plain)
-        if '  [Previous line repeated ' not in obs['std']:
+        plain = obs['std_plain']
+        tb_plain = obs.get('std_tb_plain', obs['std_tb'])
+        return (obs['ei'] + '\n' == plain and obs['print'] == plain
+                and obs.get('cur', obs['ei']) + '\n' == plain and obs.get('cei', obs['ei']) + '\n' == plain
+                and (obs.get('std_lim_plain') is None or obs.get('print_lim') == obs['std_lim_plain'])
+                and obs['tbi'] == tb_plain and obs.get('cur_tbi', obs['tbi']) == tb_plain)
+
+    def finding_collapse_line_not_parsed(self, case, failure):
+        """live kind, the interpreter's own text through from_string: a '[Previous line repeated N more times]' line is
+        no frame line, from_string stops there; matched only while the implementation agrees with the verified model
+        and the same entries printed one by one parse and round-trip correctly"""
+        if getattr(failure, 'model_agrees', None) is False or case['k'] != 'l' or failure.tag != 'parse_std':
             return False
-        # the same entries printed one by one (no collapse line) parse and round-trip correctly
+        obs = self._live_obs(case)
+        if 'std' not in obs or '  [Previous line repeated ' not in obs['std']:
+            return False
         return (self._parsed_ok(obs['parsed_plain'], obs) and obs['parsed_plain']['str'] + '\n' == obs['std_plain']
                 and not obs['std_msg'].endswith('\n') and not any(c in obs['std_msg'] for c in EXOTIC))
 
@@ -1716,7 +1743,7 @@ class C16(Property):
         for i in range(len(links)):
             yield dict(case, links=links[:i] + links[i + 1:])
         for i, ln in enumerate(links):
-            if ln['kind'] == 'rec' and ln.get('n', 0) > 0:
+            if ln['kind'] in ('rec', 'rec2', 'recalt') and ln.get('n', 0) > 0:
                 yield dict(case, links=links[:i] + [dict(ln, n=ln['n'] - 1)] + links[i + 1:])
             if ln['kind'] != 'call':
                 yield dict(case, links=links[:i] + [{'m': ln['m'], 'kind': 'call'}] + links[i + 1:])
